@@ -150,6 +150,11 @@ class BaseProtoServer(object):
       return
     if not act.get('drop'):
       d = act.get('delay', 0.0)
+      if act.get('close') and act.get('close_delay') == d:
+        # answer and close in one go: both are buffered when the client looks
+        conn.write(data, d, act.get('chunks'), label, close_after=act['close'])
+        req['reply_vt'] = self.env.now + d
+        return
       conn.write(data, d, act.get('chunks'), label)
       req['reply_vt'] = self.env.now + d
       if act.get('dup'):
